@@ -1598,7 +1598,14 @@ private:
     }
     else
     {
-      _peerIndex.erase(pkey);
+      // Several sessions can share one peer address (implicit accept plus
+      // connectViaListener). Only the session that _peerIndex dispatches to may
+      // remove the entry; closing another one must not silence the receiver.
+      auto pit = _peerIndex.find(pkey);
+      if (pit != _peerIndex.end() && pit->second == sid)
+      {
+        _peerIndex.erase(pit);
+      }
     }
 
     _atomicStats.closed++;
